@@ -214,10 +214,11 @@ func (c *Ctx) checkComplementFunc() {
 							// further element is complemented on the way
 							if !errOK && (ifi.Block().Succs[0] == st.Block() || ifi.Block().Succs[0].Dominates(st.Block())) {
 								nRet, allErr, storesAgain := 0, true, false
-								flagWalk(fn, ifi.Block(), nf, func(b, _ *ssa.BasicBlock) {
+								flagWalk(fn, ifi.Block(), nf, func(b, _ *ssa.BasicBlock) bool {
 									if b == st.Block() {
 										storesAgain = true
 									}
+									return true
 								}, func(_ *ssa.Return, kind string) {
 									nRet++
 									if kind != "err" {
